@@ -371,11 +371,135 @@ def fam_der(P, kind, n, params, x):
     return getattr(P, FAM_DER[kind])(n, *params, x)
 
 
+
+# ------------------------------------------------------------------------------------------------
+# history / aliasing: derivative routines evaluated twice on the caller's own containers
+# ------------------------------------------------------------------------------------------------
+CONTAINERS = ['f64', 'f32', 'i64', 'list', 'tuple']
+ALIAS_PATHS = ['jder', 'qbfsder', 'q2dder', 'zzqbfs', 'zzqcon', 'zzq2d', 'zern', 'fam']
+
+
+def container(vals, kind):
+    if kind == 'f64':
+        return np.array(vals, dtype=np.float64)
+    if kind == 'f32':
+        return np.array(vals, dtype=np.float32)
+    if kind == 'i64':
+        return np.array([int(v) for v in vals], dtype=np.int64)
+    if kind == 'list':
+        return list(vals)
+    return tuple(vals)
+
+
+def snap(obj):
+    if isinstance(obj, np.ndarray):
+        return ('nd', obj.dtype.str, obj.shape, obj.copy())
+    if isinstance(obj, (list, tuple)):
+        return (type(obj).__name__, [snap(o) for o in obj])
+    return ('sc', obj)
+
+
+def same(a, b):
+    if a[0] != b[0]:
+        return False
+    if a[0] == 'nd':
+        return a[1] == b[1] and a[2] == b[2] and np.array_equal(a[3], b[3], equal_nan=True)
+    if a[0] == 'sc':
+        return a[1] == b[1]
+    return len(a[1]) == len(b[1]) and all(same(x, y) for x, y in zip(a[1], b[1]))
+
+
+def pred_alias(case):
+    """a derivative routine called twice on the same caller-owned containers: both results must agree with the result
+    obtained from pristine python-float copies (which the other items tie to the exact derivative), and every argument
+    must be left exactly as it was"""
+    P, qp, J = _impl()
+    path, kind = case['path'], case['container']
+    tol = 1e-5 if kind == 'f32' else TOL
+    cs = [float(v) for v in case['cs']]
+    cs2 = [float(v) for v in case['cs2']]
+    u = np.array(case['u'], dtype=float)
+    t = np.array(case['t'], dtype=float)
+    x = np.array(case['x'], dtype=float)
+    j, m = case['j'], case['m']
+    if path == 'jder':
+        a, b = case['alpha'], case['beta']
+        fn = lambda c_, x_: J.jacobi_sum_clenshaw_der(c_, a, b, x_, j=j)                 # noqa: E731
+        args, ref = [container(cs, kind), x], [list(cs), x.copy()]
+    elif path == 'qbfsder':
+        fn = lambda c_, q_: qp.clenshaw_qbfs_der(c_, q_, j=j)                            # noqa: E731
+        args, ref = [container(cs, kind), u * u], [list(cs), u * u]
+    elif path == 'q2dder':
+        fn = lambda c_, q_: qp.clenshaw_q2d_der(c_, m, q_, j=j)                          # noqa: E731
+        args, ref = [container(cs, kind), u * u], [list(cs), u * u]
+    elif path == 'zzqbfs':
+        fn = lambda c_, u_, q_: np.array(qp.compute_z_zprime_Qbfs(c_, u_, q_))           # noqa: E731
+        args, ref = [container(cs, kind), u, u * u], [list(cs), u.copy(), u * u]
+    elif path == 'zzqcon':
+        fn = lambda c_, u_, q_: np.array(qp.compute_z_zprime_Qcon(c_, u_, q_))           # noqa: E731
+        args, ref = [container(cs, kind), u, u * u], [list(cs), u.copy(), u * u]
+    elif path == 'zzq2d':
+        pad = [[] for _ in range(m - 1)]
+        fn = lambda c0, a_, b_, u_, t_: np.array(qp.compute_z_zprime_Q2d(c0, a_, b_, u_, t_))   # noqa: E731
+        args = [container(cs, kind), pad + [container(cs2, kind)], pad + [container(cs, kind)], u, t]
+        ref = [list(cs), pad + [list(cs2)], pad + [list(cs)], u.copy(), t.copy()]
+    elif path == 'zern':
+        n_ = m + 2 * (len(cs) % 3)
+        fn = lambda r_, t_: np.array(P.zernike_nm_der(n_, -m if j % 2 else m, r_, t_, norm=bool(j % 2)))   # noqa: E731
+        args, ref = [u, t], [u.copy(), t.copy()]
+    elif path == 'fam':
+        kinds = ['he', 'h', 'lag', 'jac', 'legendre', 'cheby1', 'cheby2', 'cheby3', 'cheby4']
+        fk = kinds[(j + m) % len(kinds)]
+        params = {'lag': (0.5,), 'jac': (case['alpha'], case['beta'])}.get(fk, ())
+        n_ = len(cs) + m
+        fn = lambda x_: np.array(fam_der(P, fk, n_, params, x_))                         # noqa: E731
+        pts = u if fk == 'lag' else x
+        args, ref = [pts], [pts.copy()]
+    else:
+        raise C.ToolError(path)
+    r0 = np.array(fn(*ref), dtype=float)
+    before = snap(args)
+    r1 = np.array(fn(*args), dtype=float)
+    mid = snap(args)
+    r2 = np.array(fn(*args), dtype=float)
+    after = snap(args)
+    if not same(before, mid):
+        return False, f'{path}: the first call modified its arguments (container {kind})'
+    if not same(mid, after):
+        return False, f'{path}: the second call modified its arguments (container {kind})'
+    sc = float(np.max(np.abs(r0))) if r0.size else 0.0
+    if not close(r1, r0, tol, extra_scale=sc):
+        return False, f'{path} on a {kind} container: {np.ravel(r1)[:3]}; on pristine python floats: {np.ravel(r0)[:3]}'
+    if not close(r2, r0, tol, extra_scale=sc):
+        return False, f'{path} on a {kind} container: second evaluation {np.ravel(r2)[:3]} differs from {np.ravel(r0)[:3]} (first was right)'
+    return True, ''
+
+
+def alias_cases(rng, count):
+    out = []
+    for i in range(count):
+        path = ALIAS_PATHS[i % len(ALIAS_PATHS)]
+        kind = CONTAINERS[(i // len(ALIAS_PATHS)) % len(CONTAINERS)]
+        n = int(rng.integers(1, 8))
+        cs = [float(int(v)) for v in rng.integers(-4, 5, n)]
+        if not any(cs):
+            cs[-1] = 1.0
+        a, b = AB[i % len(AB)]
+        out.append({'item': 'alias', 'path': path, 'container': kind, 'cs': cs,
+                    'cs2': [float(int(v)) for v in rng.integers(-4, 5, int(rng.integers(1, 8)))],
+                    'u': [float(v) for v in rng.uniform(0.1, 0.95, 3)], 't': [float(v) for v in rng.uniform(0, 6, 3)],
+                    'x': [float(v) for v in rng.uniform(-0.9, 0.9, 3)], 'alpha': a, 'beta': b,
+                    'j': 1 + (i // 5) % 4, 'm': 1 + (i // 3) % 4})
+    return out
+
+
 def pred(case):
     """(ok, detail): is the derivative routine the formal derivative of the value routine on this input?"""
     P, qp, J = _impl()
     it = case['item']
     try:
+        if it == 'alias':
+            return pred_alias(case)
         if it == 'jder':
             s, a, b, j = case['s'], case['alpha'], case['beta'], case['j']
             x = np.asarray(case['x'], dtype=float)
@@ -936,6 +1060,105 @@ def correspondence(ctx):
                 ctx.disagree('zzq2d', case, 'model assembly', f'{vals[:3]} != model formal {vals[3:]}', 'model self-check')
         add(q2d_line(qp, 'zzq2d', w, u, t, cm0, ams, bms, mode='q' if exact else 'f'), chk)
 
+    # ------------------------------------------------ points ON the axis (r = 0 exactly) and on the edge (r = 1, x = +-1)
+    from prysm.coordinates import make_xy_grid, cart_to_polar
+    grids = []
+    for size in (4, 5):                       # even and odd grids both contain the sample r = 0
+        gx, gy = make_xy_grid(size, diameter=2)
+        gr, gt = cart_to_polar(gx, gy)
+        grids.append((np.asarray(gr, dtype=float), np.asarray(gt, dtype=float)))
+    r_list = np.array([0.0, 0.0, 0.0, 0.0, 1.0, 1.0, 0.5])
+    t_list = np.array([0.0, 0.3, 2.0, -1.2, 0.7, 4.0, 1.0])
+    nm_axis = [(n, m) for n in range(0, ctx.scale(7, 10)) for m in range(-n, n + 1, 2)]
+    for zi, (n, m) in enumerate(nm_axis):
+        norm = bool(zi % 2)
+        sets = [(r_list, t_list)] + ([grids[zi % 2]] if (abs(m) <= 2 or ctx.thorough or zi % 3 == 0) else [])
+        for rr, tt in sets:
+            case = {'item': 'zern', 'n': n, 'm': m, 'norm': norm, 'r': rr.tolist(), 't': tt.tolist()}
+            ctx.case('zern', case, nontrivial=True, tag=f'axis/{"m0" if m == 0 else "|m|=1" if abs(m) == 1 else "|m|>=2"}/{"grid" if rr.ndim == 2 else "list"}')
+            run_pred('zern', case)
+        try:
+            dr, dt = P.zernike_nm_der(n, m, r_list, t_list, norm=norm)
+            dr, dt = np.asarray(dr, dtype=float), np.asarray(dt, dtype=float)
+        except Exception as ex:
+            dr = dt = f'raised {type(ex).__name__}: {ex}'
+        zn = float(P.zernike_norm(n, m)) if norm else 1.0
+        am = abs(m)
+        case = {'item': 'zern', 'n': n, 'm': m, 'norm': norm, 'r': r_list.tolist(), 't': t_list.tolist()}
+        for k in (1, 2, 4):
+            def chk(rep, case=case, dr=dr, dt=dt, k=k):
+                mdr, mdt, fdr, fdt = (C.w2f(v) for v in rep.split())
+                if isinstance(dr, str):
+                    ctx.disagree('zern', case, dr, [mdr, mdt])
+                elif not close(dr[k], mdr) or not close(dt[k], mdt):
+                    ctx.disagree('zern', case, [float(dr[k]), float(dt[k])], [mdr, mdt], f'point r={case["r"][k]}')
+            add(f'f zern {n} {m} {C.f2w(r_list[k])} {C.f2w(np.cos(am * t_list[k]))} {C.f2w(np.sin(am * t_list[k]))} {C.f2w(zn)}', chk)
+    for rep_ in range(ctx.scale(4, 16)):
+        idx = rng.choice(len(nm_axis), size=int(rng.integers(1, 6)), replace=True)
+        rr, tt = grids[rep_ % 2]
+        case = {'item': 'zernseq', 'nms': [list(nm_axis[i]) for i in idx], 'norm': bool(rep_ % 2), 'r': rr.tolist(), 't': tt.tolist()}
+        ctx.case('zernseq', case, nontrivial=True, tag='axis/grid')
+        run_pred('zernseq', case)
+    u_edge = [0.0, 1.0, 0.5]
+    for ci, (n, kind, pos) in enumerate(coef_cases(rng, ctx.scale(6, 9))):
+        cs = coef_vector(rng, n, kind, pos)
+        j = 1 + ci % 3
+        for case in ({'item': 'zzqbfs', 'cs': cs, 'u': u_edge}, {'item': 'zzqcon', 'cs': cs, 'u': u_edge},
+                     {'item': 'qbfsder', 'cs': cs, 'u': u_edge, 'j': j},
+                     {'item': 'q2dder', 'cs': cs, 'm': 1 + ci % 3, 'u': u_edge, 'j': j},
+                     {'item': 'jder', 's': cs, 'alpha': AB[ci % len(AB)][0], 'beta': AB[ci % len(AB)][1], 'x': [-1.0, 1.0, 0.0], 'j': j}):
+            ctx.case(case['item'], case, nontrivial=any(cs), tag='axis-and-edge')
+            run_pred(case['item'], case)
+        for it, fn in (('zzqbfs', qp.compute_z_zprime_Qbfs), ('zzqcon', qp.compute_z_zprime_Qcon)):
+            case = {'item': it, 'cs': cs, 'u': u_edge}
+            try:
+                ue = np.array(u_edge)
+                S, Sp = fn(cs, ue, ue * ue)
+                S, Sp = np.asarray(S, dtype=float), np.asarray(Sp, dtype=float)
+            except Exception as ex:
+                S = Sp = f'raised {type(ex).__name__}: {ex}'
+            f, g, h = qbfs_fgh(qp, n)
+            for k in (0, 1):
+                def chk(rep, case=case, S=S, Sp=Sp, k=k, it=it):
+                    mS, mSp, fS, fSp = (C.w2f(v) for v in rep.split())
+                    if isinstance(S, str) or not close(S[k], mS) or not close(Sp[k], mSp):
+                        ctx.disagree(it, case, S if isinstance(S, str) else [float(S[k]), float(Sp[k])], [mS, mSp], f'u={case["u"][k]}')
+                if it == 'zzqbfs':
+                    add(f'f zzqbfs {C.f2w(u_edge[k])} {wl(cs)} {wl(f)} {wl(g)} {wl(h)}', chk)
+                else:
+                    add(f'f zzqcon {C.f2w(u_edge[k])} {wl(cs)}', chk)
+    for fi, (kind, params) in enumerate([('jac', (0.0, 0.0)), ('jac', (1.0, 2.3)), ('jac', (-0.5, 0.5)), ('legendre', ()), ('cheby1', ()),
+                                         ('cheby2', ()), ('cheby3', ()), ('cheby4', ()), ('lag', (0.5,)), ('he', ()), ('h', ())]):
+        for n in range(0, ctx.scale(7, 13)):
+            xs_ = [0.0, 0.5] if kind == 'lag' else [-1.0, 1.0, 0.0]
+            case = {'item': 'fam', 'kind': kind, 'n': n, 'params': list(params), 'x': xs_}
+            ctx.case('fam', case, nontrivial=True, tag=f'{kind}/edge')
+            run_pred('fam', case)
+    for ci in range(ctx.scale(42, 300)):
+        kind = qkinds[ci % len(qkinds)]
+        cm0, ams, bms = q2d_content(rng, kind, 3, ctx.scale(4, 6))
+        uu = [0.0, 1.0][ci % 2]
+        t = float(rng.uniform(-3, 3))
+        case = {'item': 'zzq2d', 'cm0': cm0, 'ams': ams, 'bms': bms, 'u': [uu], 't': [t]}
+        ctx.case('zzq2d', case, nontrivial=True, tag=f'{"axis" if uu == 0 else "edge"}/{kind}')
+        run_pred('zzq2d', case)
+        try:
+            z, dr, dt = qp.compute_z_zprime_Q2d(cm0, ams, bms, np.asarray([uu]), np.asarray([t]))
+            got = [float(z[0]), float(dr[0]), float(dt[0])]
+        except Exception as ex:
+            got = f'raised {type(ex).__name__}: {ex}'
+
+        def chk(rep, case=case, got=got):
+            vals = [C.w2f(v) for v in rep.split()]
+            if isinstance(got, str) or not close(got, vals[:3]):
+                ctx.disagree('zzq2d', case, got, vals[:3])
+        add(q2d_line(qp, 'zzq2d', C.f2w, uu, t, cm0, ams, bms, mode='f'), chk)
+
+    # ------------------------------------------------ history / aliasing: twice on the caller's own containers
+    for case in alias_cases(rng, ctx.scale(240, 2400)):
+        ctx.case('alias', case, nontrivial=True, tag=f'{case["path"]}/{case["container"]}')
+        run_pred('alias', case)
+
     # ------------------------------------------------ conic base surfaces and Q2d_and_der (x/raytracing/surfaces.py)
     S = _surf()
     kappas = [-2.5, -1.0, -0.7, 0.0, 0.6, 1.3]
@@ -985,6 +1208,9 @@ def correspondence(ctx):
         dx, dy = [(sh, 0.0), (0.0, sh), (0.0, 0.0), (-sh, 0.0)][ci % 4]
         r = rng.uniform(0.05, 0.45, 3) * rmax
         t = rng.uniform(-3.1, 3.1, 3)
+        if ci % 3 == 1:
+            r[1] = 0.0          # the vertex of the section; Q2d_and_der gets (x, y) = (0, 0), where cart_to_polar returns t = 0
+            t[1] = 0.0
         case = {'item': 'soac', 'c': c, 'kappa': k, 'r': r.tolist(), 't': t.tolist(), 'dx': dx, 'dy': dy}
         ctx.case('soac', case, nontrivial=True, tag=f'kappa{k}/' + ('dx' if dx else 'dy' if dy else 'centred'))
         run_pred('soac', case)
@@ -1066,7 +1292,10 @@ def _small_cases():
         for m in range(-n, n + 1, 2):
             for norm in (True, False):
                 yield {'item': 'zern', 'n': n, 'm': m, 'norm': norm, 'r': [0.3, 0.8], 't': [0.4, 2.5]}
+    for n, m in ((1, 1), (1, -1), (3, 1), (2, 2), (2, 0)):
+        yield {'item': 'zern', 'n': n, 'm': m, 'norm': False, 'r': [0.0, 0.0, 1.0], 't': [0.0, 1.0, 2.0]}
     yield {'item': 'zernseq', 'nms': [[2, 0], [1, 1], [3, -1]], 'norm': True, 'r': [0.3, 0.8], 't': [0.4, 2.5]}
+    yield {'item': 'zernseq', 'nms': [[1, 1], [3, -1]], 'norm': True, 'r': [0.0, 1.0], 't': [0.4, 2.5]}
     for n in range(1, 5):
         v = [1.0 + 0.5 * i for i in range(n)]
         for m in (1, 2):
